@@ -110,9 +110,9 @@ func init() {
 			"Nat × Bool × Bool", pre, "(0, false, rpc_)",
 			Spec{Kind: "i64", Lazy: true, Inline: true, InitCondByCall: map[string]string{".UnmarshalBinary": "rootBad"}, Ret: "statusstate", StateVars: []string{"rpc_"}, Ignore: ign, Status: st,
 				IgnoreLHS: []string{"jsonRsp", "req", "currentRoot"},
-				ErrCalls: map[string]string{"parseGetEntryAndProofParams": "parseFails", "rpcGetEntryAndProof": "rpcErr|rpc_ := true",
+				ErrCalls: map[string]string{"parseGetEntryAndProofParams": "parseFails", "rpcGetEntryAndProof": "rpcErr|rpc_ := true", "li.rpcGetEntryAndProof": "rpcErr|rpc_ := true",
 					"json.Marshal": "marshalFails", "w.Write": "writeFails"},
-				Bind: map[string]string{"rpcGetEntryAndProof": "rsp"},
+				Bind: map[string]string{"rpcGetEntryAndProof": "rsp", "li.rpcGetEntryAndProof": "rsp"},
 				InitCond: map[string]string{rootInit: "rootBad"},
 				Repl: common(map[string]string{"rsp.Leaf == nil": "leafNil", "len(rsp.Leaf.LeafValue)": "leafValLen", "rsp.Proof == nil": "proofNil",
 					"len(rsp.Proof.Hashes)": "nHashes"})})},
